@@ -107,6 +107,13 @@ def apply_value_class(spec, vclass, seed):
             spec[k] = (rng.normal(0, 1, n) * 10.0 ** -rng.integers(3, 30, n).astype(float)
                        ).astype(np.float32)
         spec["x"][0] = np.float32(-0.0)
+    elif vclass == "nearly_constant":
+        # columns that vary only in their last digits (a planar section at z ~ 5000, a uniform
+        # radius up to measurement noise), and exactly constant ones
+        for k in "xyzr":
+            base = float(rng.choice([5000.0, 12345.6789, 0.25, 731.5]))
+            span = float(rng.choice([0.0, 0.0004, 0.04, 0.3]))
+            spec[k] = (base + rng.uniform(0, span, n)).astype(np.float32)
     elif vclass == "alltypes":
         spec["type"] = rng.choice([0, 1, 2, 3, 4, 5, 6, 7, 9, 123], n).astype(np.int32)
     return spec
@@ -448,7 +455,8 @@ def run(ctx):
                     "comments": [None, None, True, False][int(rng.integers(0, 4))],
                 })
             case = {"tree": rc, "vclass": str(rng.choice(["plain", "plain", "ties", "dyadic_ties",
-                                                          "huge", "tiny", "alltypes"])),
+                                                          "huge", "tiny", "alltypes",
+                                                          "nearly_constant"])),
                     "vseed": int(rng.integers(0, 2**31 - 1)),
                     "cset": int(rng.integers(0, len(COMMENT_SETS))),
                     "tsource": str(rng.choice(["", "", "/data/neuron.swc"])),
